@@ -331,22 +331,31 @@ func runC05(c *explore.Ctx) {
 		N = 6
 		modes = []uint32{1, 2, 3, 4, 1024, 1025}
 	}
-	for _, mode := range modes {
-		mode := mode
-		scope := fmt.Sprintf("POST(%d)/%d", N, mode)
-		gen.Post(N, func(idx int64, batch []gen.Doc, kinds []int) bool {
-			if !c.Replay && int((idx+int64(mode)*7)%int64(c.NShards)) != c.Shard {
-				return true
-			}
-			if c.Replay && !(c.ReplayScope == scope && c.ReplayIndex == idx) {
-				return true
-			}
-			c.Begin(scope, idx)
-			iterConfigsForBatch(c, scope, idx, batch, kinds, mode)
-			return !c.Expired()
-		})
-	}
+	// sizes outermost: if the internal deadline ends the run, every size below the one in progress
+	// has been explored completely under every mode (reported in coverage.notes)
 	largeIterWalks(c)
+	for n := 0; n <= N; n++ {
+		for _, mode := range modes {
+			mode := mode
+			scope := fmt.Sprintf("POST(n=%d)/%d", n, mode)
+			gen.PostExact(n, func(idx int64, batch []gen.Doc, kinds []int) bool {
+				if !c.Replay && int((idx+int64(mode)*7)%int64(c.NShards)) != c.Shard {
+					return true
+				}
+				if c.Replay && !(c.ReplayScope == scope && c.ReplayIndex == idx) {
+					return true
+				}
+				c.Begin(scope, idx)
+				iterConfigsForBatch(c, scope, idx, batch, kinds, mode)
+				return !c.Expired()
+			})
+			if c.Expired() {
+				c.R.Notes = append(c.R.Notes, fmt.Sprintf("deadline reached while exploring lists over %d documents; all sizes < %d were completed under every mode by this worker", n, n))
+				return
+			}
+		}
+	}
+	c.R.Notes = append(c.R.Notes, fmt.Sprintf("all sizes <= %d completed under every mode", N))
 }
 
 func iterConfigsForBatch(c *explore.Ctx, scope string, idx int64, batch []model.Doc, kinds []int, mode uint32) {
